@@ -812,6 +812,12 @@ def futureWrapper (out : Option Toks) (send : Bool) : Toks :=
 def declRewritten (asyncTrait send : Bool) (src : Sig) : Sig :=
   if src.async_ && !asyncTrait then { src with async_ := false, output := some (futureWrapper src.output send) } else src
 
+/-- a re-emitted method declaration: the user's attributes and signature, no body added -/
+def declMemberOk (hasAT send : Bool) (src : TraitFnItem) (m : GenMember) : Bool :=
+  match m with
+  | .fn as sig none => as == src.attrs && sig == declRewritten hasAT send src.sig
+  | _ => false
+
 def P_C09 (v : Variant) (attr : Toks) (item : Item) (view : View) : Bool :=
   match item with
   | .trait t =>
@@ -823,9 +829,7 @@ def P_C09 (v : Variant) (attr : Toks) (item : Item) (view : View) : Bool :=
           g.preds == t.generics.preds && g.wtrail == t.generics.wtrail &&
           -- the macro adds only mock derivations it owns
           g.attrs.all (fun a => t.attrs.contains a || a.mockKind.isSome) &&
-          zipAll (fun (src : TraitFnItem) m => match m with
-            | .fn as sig none => as == src.attrs && sig == declRewritten hasAT o.futureSendValue src.sig
-            | _ => false) t.fns (g.members.filter (fun m => m.sig?.isSome))
+          zipAll (declMemberOk hasAT o.futureSendValue) t.fns (g.members.filter (fun m => m.sig?.isSome))
       | _, _ => false
   | _ => true
 
